@@ -137,12 +137,13 @@ def build_ir(harness, contact=None, dynamic=None, polar=None, sources=None, extr
         prune_cache()
         return out
 
-def build_native(harness, contact=None, dynamic=None, polar=None, extra_flags=()):
+def build_native(harness, contact=None, dynamic=None, polar=None, extra_flags=(), opt=None):
     """returns path of the native replay binary (g++ -O2, baseline flags) for the harness files"""
     hfiles = harness_files(harness) + [os.path.join(VERIF, 'harness', 'common.hpp'), os.path.join(VERIF, 'harness', 'native_main.cpp')]
     defs = config_defs(contact, dynamic, polar) + list(extra_flags)
     # the guard is needed natively only for the configuration overrides
     gdefs = (['-DSIMUCELL3D_VERIF'] if config_defs(contact, dynamic, polar) else []) + defs + ['-DIRSYM_NATIVE']
+    if opt: gdefs = gdefs + [opt, '-g']
     key = tree_hash(hfiles, 'native' + ' '.join(GXX_FLAGS + gdefs))
     d = os.path.join(CACHE, 'nat_' + key)
     out = os.path.join(d, 'replay')
@@ -154,7 +155,7 @@ def build_native(harness, contact=None, dynamic=None, polar=None, extra_flags=()
         shutil.rmtree(tmp, ignore_errors=True)
         os.makedirs(tmp)
         # library of repo objects, shared between harnesses with the same configuration
-        lib = build_native_lib(contact, dynamic, polar)
+        lib = build_native_lib(contact, dynamic, polar, opt)
         inc = include_flags()
         srcs = harness_files(harness) + [os.path.join(VERIF, 'harness', 'native_main.cpp')]
         def one(src):
@@ -169,9 +170,9 @@ def build_native(harness, contact=None, dynamic=None, polar=None, extra_flags=()
         prune_cache()
         return out
 
-def build_native_lib(contact=None, dynamic=None, polar=None):
+def build_native_lib(contact=None, dynamic=None, polar=None, opt=None):
     defs = config_defs(contact, dynamic, polar)
-    gdefs = (['-DSIMUCELL3D_VERIF'] if defs else []) + defs
+    gdefs = (['-DSIMUCELL3D_VERIF'] if defs else []) + defs + ([opt, '-g'] if opt else [])
     key = tree_hash([], 'nativelib' + ' '.join(GXX_FLAGS + gdefs))
     d = os.path.join(CACHE, 'lib_' + key)
     out = os.path.join(d, 'librepo.a')
